@@ -240,13 +240,66 @@ pub fn check_ws(s: &str, cfg: &Cfg) -> Vec<Failure> {
                         format!("{} consecutive blank lines before {:?}", nls - 1, short(t.text(s), 30)),
                     )
                     .fact(off_fact)
-                    .fact(if t.kind == Kind::Eof { "before-eof" } else { "between-tokens" }),
+                    .fact(if t.kind == Kind::Eof { "before-eof" } else { "between-tokens" })
+                    .fact(format!("at-token:{i}")),
                 );
                 done3 = true;
             }
         }
     }
     out
+}
+
+/// Where does token `k` of `input` (index in the token sequence, which formatting preserves for
+/// well-formed code) stand with respect to the formatting toggles? Uses the parser under test
+/// only to learn the logical lines and their parents:
+/// * `ancestor-line-has-ignored-token`: the token's logical line is (transitively) a child line
+///   of a line that contains tokens of a disabled region - such lines are not laid out at all
+///   (finding F-C08-region-cuts-statement);
+/// * `own-line-has-ignored-token`: the line itself mixes ignored and enabled tokens;
+/// * `line-fully-enabled` otherwise.
+pub fn toggle_context(input: &str, k: usize) -> &'static str {
+    use pasfmt_core::prelude::*;
+    let raw = DelphiLexer {}.lex(input);
+    // ignored tokens by the harness's own toggle model
+    let mut ignored = vec![false; raw.len()];
+    let mut off = false;
+    for (i, t) in raw.iter().enumerate() {
+        let is_comment = matches!(t.get_token_type(), RawTokenType::Comment(_));
+        let tg = if is_comment { toggle::parse_toggle(t.get_content()) } else { None };
+        if tg == Some(false) {
+            off = true;
+        }
+        ignored[i] = off;
+        if tg == Some(true) {
+            if !off {
+                ignored[i] = true; // a stray `on` is itself kept verbatim
+            }
+            off = false;
+        }
+    }
+    let (lines, _toks) = DelphiLogicalLineParser {}.parse(raw);
+    let Some(mut li) = lines.iter().position(|l| l.get_tokens().contains(&k)) else {
+        return "token-in-no-line";
+    };
+    let has_ignored = |li: usize| lines[li].get_tokens().iter().any(|t| ignored.get(*t).copied().unwrap_or(false));
+    let own = has_ignored(li);
+    let mut guard = 0;
+    while let Some(p) = lines[li].get_parent() {
+        li = p.line_index;
+        guard += 1;
+        if has_ignored(li) {
+            return "ancestor-line-has-ignored-token";
+        }
+        if guard > 10_000 {
+            break;
+        }
+    }
+    if own {
+        "own-line-has-ignored-token"
+    } else {
+        "line-fully-enabled"
+    }
 }
 
 fn log_facts(f: Failure) -> Failure {
@@ -357,7 +410,14 @@ impl Prop for C08Prop {
             }
         }
         let fails = check_ws(&out, &case.cfg);
-        if let Some(f) = fails.into_iter().next() {
+        if let Some(mut f) = fails.into_iter().next() {
+            if case.ann.is_some() && case.tags.iter().any(|t| t == "toggles") {
+                let at = f.facts.iter().find_map(|x| x.strip_prefix("at-token:").and_then(|n| n.parse::<usize>().ok()));
+                if let Some(k) = at {
+                    f = f.fact(toggle_context(&case.input, k));
+                }
+            }
+            f.facts.retain(|x| !x.starts_with("at-token:"));
             return Outcome::Fail(log_facts(f));
         }
         // a verbatim region that is still open at the end of the file is reproduced byte for byte
